@@ -12,16 +12,20 @@ P = {
          "The whole finite domain is executed at the temporal decoder (and a quarter/all at the environmental decoder's temporal view) and compared with the exact ceiling of rounded-base x weights.", "4/C02", TB),
  "C03": (True, "runtime monitor: full effective-metric x temporal product (14 M) + 20 M random full-space samples (quick) / full 1.15e10 product (thorough) on the real Score(), differential against big.Rat table",
          "The score is a function of the effective metrics; that product is executed completely with seed-chosen representations, plus decoded vectors; thorough executes the full version x base x environmental product the property names.", "4/C03", TB),
- "C04": (False, "runtime monitor: exhaustive enumeration of all 73,629 v2 vectors x admitting decoders, differential against exact model with admissible tie sets", "", "4/C04", TB),
- "C05": (False, "", "", "4/C05", TB),
- "C06": (False, "", "", "4/C06", TB),
+ "C04": (True, "runtime monitor: exhaustive enumeration of all 73,629 v2 vectors x admitting decoders, differential against exact model with admissible tie sets; known finding KF-1",
+         "The whole finite domain is executed at every admitting decoder and compared with the exact rational equations (exact halves either way). 22 base vectors deviate (sub-scores rounded to two decimals) and are listed in known_findings.json with the library's value; any other mismatch is a violation.", "4/C04", TB),
+ "C05": (True, "runtime monitor: every (exploitability, adjusted-impact) key x all (CDP,TD) x temporal states through Decode (quick 5.6 M, thorough all 141 M vectors), differential against exact layered admissible-set model; known finding KF-2",
+         "Every sub-score key of the environmental equation is executed with all CDP/TD pairs; thorough executes the entire 141 M-vector domain. Mismatches are attributed to the recorded finding only for listed keys with the recorded value.", "4/C05", TB),
+ "C06": (True, "runtime monitor: rider on the exhaustive C01-C05 enumerations; per-observation grid/range/format/band oracle on integer tenths",
+         "Every (score, severity) pair produced by the exhaustive enumerations of all levels and versions is checked; evidence lists which tenths and band edges were actually observed per level.", "4/C06", TB),
  "C07": (False, "", "", "4/C07", TB),
  "C08": (False, "", "", "4/C08", TB),
  "C09": (False, "", "", "4/C09", TB),
  "C10": (False, "", "", "4/C10", TB),
  "C11": (False, "", "", "4/C11", TB),
  "C12": (False, "", "", "4/C12", TB),
- "C13": (False, "", "", "4/C13", TB),
+ "C13": (True, "runtime monitor: relational oracle between two scores of the same decoded vector over the exhaustive domains",
+         "Relations (ND-neutrality, TD:N => 0, temporal <= base) are checked on every vector of the finite domains (v2 TD:N on every sub-score key in quick, all 28 M in thorough); no spec oracle involved.", "4/C13", TB),
  "C14": (False, "", "", "4/C14", TB),
  "C15": (False, "", "", "4/C15", TB),
  "C16": (False, "", "", "4/C16", TB),
